@@ -2,6 +2,7 @@ package gocv
 
 import (
 	"fmt"
+	"go/ast"
 	"go/types"
 	"strings"
 )
@@ -151,6 +152,80 @@ func (ex *Exec) linkClosureContracts(st *State, fc *FuncContract, pc *preparedCa
 				t = "(forall (" + strings.Join(binders, " ") + ") " + t + ")"
 			}
 			st.assume(t)
+		}
+	}
+}
+
+// havocCallbackEffects: a callee that models a parameter as `callback pure` says nothing about the
+// effects of the function it is handed; those effects are the ARGUMENT's. A literal is scanned for
+// its heap/ghost effects, a named function contributes its contract's modifies, anything else
+// (function variables, uncontracted functions) havocs the heap.
+func (ex *Exec) havocCallbackEffects(st *State, fc *FuncContract, pc *preparedCall) {
+	if len(fc.PureCallbacks) == 0 || pc.fn == nil {
+		return
+	}
+	sig := pc.fn.Type().(*types.Signature)
+	for i := 0; i < sig.Params().Len() && i < len(pc.args); i++ {
+		pn := sig.Params().At(i).Name()
+		if i < len(fc.ParamNames) && fc.ParamNames[i] != "" {
+			pn = fc.ParamNames[i]
+		}
+		isCb := false
+		for _, n := range fc.PureCallbacks {
+			if n == pn {
+				isCb = true
+			}
+		}
+		if !isCb {
+			continue
+		}
+		a := pc.args[i]
+		switch {
+		case a.Clo != nil && a.Clo.Lit != nil:
+			eff := &effects{comps: map[string]bool{}, ghost: map[string]bool{}}
+			ex.scanEffects(a.Clo.Lit.Body, map[types.Object]bool{}, eff, map[ast.Node]bool{})
+			if eff.heapAll {
+				ex.heapHavocAll(st)
+			} else {
+				for c := range eff.comps {
+					ex.heapHavocComp(st, c)
+				}
+			}
+			for g := range eff.ghost {
+				ex.ghostHavoc(st, g)
+			}
+		case a.Fn != nil:
+			cfc := ex.cs.Funcs[funcKey(a.Fn)]
+			if cfc == nil {
+				ex.heapHavocAll(st)
+				continue
+			}
+			for _, m := range cfc.Modifies {
+				switch {
+				case strings.HasPrefix(m, "ghost."):
+					ex.ghostHavoc(st, strings.TrimPrefix(m, "ghost."))
+				case strings.HasPrefix(m, "heap "):
+					ex.heapHavocComp(st, ex.qualifyComp(strings.TrimSpace(strings.TrimPrefix(m, "heap ")), cfc))
+				default:
+					ex.heapHavocAll(st)
+				}
+			}
+		default:
+			// a function value: effect-free only if this function's own contract models it as pure
+			if i < len(pc.call.Args) {
+				if id, ok := unparen(pc.call.Args[i]).(*ast.Ident); ok && ex.fc != nil {
+					own := false
+					for _, n := range ex.fc.PureCallbacks {
+						if n == id.Name {
+							own = true
+						}
+					}
+					if own {
+						continue
+					}
+				}
+			}
+			ex.heapHavocAll(st)
 		}
 	}
 }
